@@ -3,6 +3,7 @@ pub mod c04;
 pub mod c05;
 pub mod c06;
 pub mod c07;
+pub mod c08;
 pub mod c09;
 pub mod c10;
 pub mod c11;
@@ -20,6 +21,7 @@ pub fn run(s: &mut Session, ctx: &Ctx, prop: &str) -> bool {
         "C05" => c05::run(s, ctx),
         "C06" => c06::run(s, ctx),
         "C07" => c07::run(s, ctx),
+        "C08" => c08::run(s, ctx),
         "C09" => c09::run(s, ctx),
         "C10" => c10::run(s, ctx),
         "C11" => c11::run(s, ctx),
